@@ -34,7 +34,7 @@ def outcome(r):
     out_len = 0
     for (t, a, arg) in r.script:
         if a == "net":
-            if arg in ("blackout", "lossy"):
+            if arg in ("blackout", "lossy", "noping"):
                 mode = "bad"
                 if arg == "blackout" and out_from < 0:
                     # was the manager CONNECTED when the blackout began?
@@ -74,8 +74,8 @@ def outcome(r):
                 continue
             tt = int(t * 1000)
             if tt <= t_ls:
-                m = "bad" if arg in ("blackout", "lossy", "rferr") else "ok"
-            elif tt <= t_nf and arg in ("blackout", "lossy", "rferr"):
+                m = "bad" if arg in ("blackout", "lossy", "rferr", "noping") else "ok"
+            elif tt <= t_nf and arg in ("blackout", "lossy", "rferr", "noping"):
                 bad = True
         nf_reach = "spa-unreachable" if (bad or m == "bad") else "spa-reachable"
     return {"scenario": r.name, "nf_discovery": nf_reach, "healthy_from": healthy_from, "connected_at": connected_at, "bound": heal_b,
